@@ -64,6 +64,26 @@ def handlers : List (String × (List String → String)) := [
   ("set_shape", fun a => match a with
     | [ls, w, h, st] => encLines (setShape cw (decLines ls) (decNat w) (decOptNat h) (decOptNat st))
     | _ => "bad-args"),
+  -- styles are ids; add a b = 100*a + b (order-sensitive, collision-free for ids < 100); truthy = id ≠ 0;
+  -- noLink / noColor = id + 1000 / id + 2000
+  ("apply_style", fun a => match a with
+    | [l, st, ps] => encLine (applyStyle (fun x y => 100 * x + y) (· != 0) (decLine l) (decOptNat st) (decOptNat ps))
+    | _ => "bad-args"),
+  ("filter_control", fun a => match a with
+    | [l, b] => encLine (filterControl (decLine l) (decBool b))
+    | _ => "bad-args"),
+  ("strip_styles", fun a => match a with
+    | [l] => encLine (stripStyles (decLine l))
+    | _ => "bad-args"),
+  ("strip_links", fun a => match a with
+    | [l] => encLine (stripLinks (· != 0) (· + 1000) (decLine l))
+    | _ => "bad-args"),
+  ("remove_color", fun a => match a with
+    | [l] => encLine (removeColor (· != 0) (· + 2000) (decLine l))
+    | _ => "bad-args"),
+  ("get_shape", fun a => match a with
+    | [ls] => let r := getShape cw (decLines ls); toString r.1 ++ " " ++ toString r.2
+    | _ => "bad-args"),
   ("simplify", fun a => match a with
     | [l, mergeCtl] => encLine (simplify (decLine l) (decBool mergeCtl))
     | _ => "bad-args")
